@@ -26,11 +26,14 @@ type c11Op struct {
 
 type c11Case struct {
 	Keys int     `json:"keys"` // number of distinct cursor keys in play
+	// cursor ids and stream names that contain commas, chosen such that two
+	// different (cursor id, stream) pairs differ only in where the comma falls
+	Commas bool `json:"commas,omitempty"`
 	Ops  []c11Op `json:"ops"`
 }
 
 func genC11(t *rapid.T) c11Case {
-	c := c11Case{Keys: rapid.SampledFrom([]int{3, 3, 8, 40}).Draw(t, "keys")}
+	c := c11Case{Keys: rapid.SampledFrom([]int{3, 3, 8, 40}).Draw(t, "keys"), Commas: rapid.IntRange(0, 7).Draw(t, "commas") == 0}
 	if vfutil.Thorough() && rapid.IntRange(0, 9).Draw(t, "many") == 0 {
 		c.Keys = 600 // more than the 512-entry cache
 	}
@@ -91,8 +94,24 @@ func runC11(c c11Case, o *vfutil.Obs) *vfutil.Failure {
 	c11Gen++
 	gen := c11Gen
 	model := map[string]int64{}
+	commas := c.Commas
+	if commas && vfutil.IsExcluded("c11-cursor-key-collision") {
+		// open finding: the key under which a cursor is stored joins cursor id,
+		// stream and partition with commas, unescaped; constructed away so that
+		// the search goes on
+		o.Excluded("c11-cursor-key-collision")
+		commas = false
+	}
 	keyOf := func(k int) (id, stream string, part int32) {
-		return fmt.Sprintf("cur-%d-%d", gen, k%2), "stream" + fmt.Sprint((k/2)%2), int32((k / 4) % 4) + 4*int32(k/16)
+		part = int32((k/4)%4) + 4*int32(k/16)
+		if commas {
+			o.Label("names-with-commas")
+			if k%2 == 0 {
+				return fmt.Sprintf("c%d,a", gen), "b" + fmt.Sprint((k/2)%2), part
+			}
+			return fmt.Sprintf("c%d", gen), "a,b" + fmt.Sprint((k/2)%2), part
+		}
+		return fmt.Sprintf("cur-%d-%d", gen, k%2), "stream" + fmt.Sprint((k/2)%2), part
 	}
 	var hist []string
 	fetchErrs, fetches := 0, 0
@@ -105,7 +124,7 @@ func runC11(c c11Case, o *vfutil.Obs) *vfutil.Failure {
 		_, err := l.s.api.SetCursor(ctx, &client.SetCursorRequest{Stream: st, Partition: p, CursorId: id, Offset: v})
 		cancel()
 		if err == nil {
-			model[fmt.Sprintf("%s,%s,%d", id, st, p)] = v
+			model[fmt.Sprintf("%q|%q|%d", id, st, p)] = v
 			setsSinceClean++
 		}
 		hist = append(hist, fmt.Sprintf("set(k%d=%d)%s", k, v, errMark(err)))
@@ -121,7 +140,7 @@ func runC11(c c11Case, o *vfutil.Obs) *vfutil.Failure {
 			hist = append(hist, fmt.Sprintf("fetch(k%d)=err", k))
 			return nil // the statement is about the value returned
 		}
-		want, ok := model[fmt.Sprintf("%s,%s,%d", id, st, p)]
+		want, ok := model[fmt.Sprintf("%q|%q|%d", id, st, p)]
 		if !ok {
 			want = -1
 		}
@@ -220,7 +239,7 @@ func runC11(c c11Case, o *vfutil.Obs) *vfutil.Failure {
 					return vfutil.Failf("C11/wrong-cursor/stale-value", "after concurrent SetCursor calls with offsets %d..%d FetchCursor returns %d; history %v", op.Val, op.Val+int64(n)-1, viaLog, tailS(hist, 40))
 				}
 				if !allFailed {
-					model[fmt.Sprintf("%s,%s,%d", id, st, p)] = viaLog
+					model[fmt.Sprintf("%q|%q|%d", id, st, p)] = viaLog
 					setsSinceClean++
 				}
 			}
